@@ -11,6 +11,8 @@ CONSTANTS
   IdentityDepKey = TRUE
   VolatileUniq = TRUE
   FreshModule = FALSE
+  Words = {1}
+  FullStropKey = TRUE
 VIEW View
 INVARIANT EmitBad
 CHECK_DEADLOCK FALSE
